@@ -317,7 +317,14 @@ func (w *Walker) instr(in ssa.Instruction, c *FCtx, fl *Flow, facts Facts, path 
 			w.emit(&Effect{Kind: "mapupdate", Name: l, Args: []*Term{c.Term(x.Key), c.Term(x.Value)}, Instr: in, Facts: facts.Clone(), Path: path, C: c, Flow: fl})
 		}
 	case *ssa.Send:
-		w.emit(&Effect{Kind: "send", Name: c.Term(x.Chan).Key(), Args: []*Term{c.Term(x.X)}, Instr: in, Facts: facts.Clone(), Path: path, C: c, Flow: fl})
+		w.emit(&Effect{Kind: "send", Name: c.Term(x.Chan).Key(), Args: []*Term{c.Term(x.X)}, Instr: in, Facts: facts.Clone(), Path: path, C: c, Flow: fl, VType: chanElemShort(x.Chan.Type())})
+	case *ssa.Select:
+		// a send arm of a select is a (possible) send with the facts of this point
+		for _, st := range x.States {
+			if st.Dir == types.SendOnly {
+				w.emit(&Effect{Kind: "send", Name: c.Term(st.Chan).Key(), Args: []*Term{c.Term(st.Send)}, Instr: in, Facts: facts.Clone(), Path: path, C: c, Flow: fl, VType: chanElemShort(st.Chan.Type())})
+			}
+		}
 	case ssa.CallInstruction:
 		cc := x.Common()
 		if isLoggingCall(cc) {
@@ -476,8 +483,8 @@ func diamondWithPhi(b *ssa.BasicBlock) bool {
 	}
 	r0, r1 := reach(b.Succs[0]), reach(b.Succs[1])
 	for j := range r0 {
-		if !r1[j] || j == b {
-			continue
+		if !r1[j] || j == b || j.Dominates(b) {
+			continue // the header of an enclosing loop is reached from both arms too, but is not a join of this diamond
 		}
 		for _, in := range j.Instrs {
 			phi, ok := in.(*ssa.Phi)
@@ -679,4 +686,12 @@ func (e *Effect) PathConds() []*Term {
 	}
 	collect(e.C, e.Instr)
 	return out
+}
+
+// chanElemShort: short name of a channel's element type ("" if not a channel)
+func chanElemShort(t types.Type) string {
+	if ch, ok := t.Underlying().(*types.Chan); ok {
+		return typeShort(ch.Elem())
+	}
+	return ""
 }
